@@ -242,7 +242,6 @@ struct Peer {
     tp: TestPeer,
     sstore: TestSpacesStore,
     forge: TestForge,
-    name: String,
     id: VerifyingKey,
     /// Messages this peer authored or has been handed (whatever the result).
     have: BTreeSet<Hash>,
@@ -297,7 +296,6 @@ struct World {
     spaces: Vec<Hash>,
     groups: Vec<VerifyingKey>,
     space_group: BTreeMap<Hash, VerifyingKey>,
-    stopped: bool,
 }
 
 enum Outcome {
@@ -621,7 +619,6 @@ impl World {
         // `process` itself persists nothing (the caller does, after it returned), locks are
         // released by unwinding and a dropped transaction permit rolls back: the peer stays usable,
         // so that one run can meet several different panics.
-        let _ = p;
         self.peers[p].snap = None;
     }
 
@@ -741,7 +738,8 @@ impl World {
     /// One local API call of peer `p`, drawn from the choice stream.
     async fn local_op(&mut self, p: usize) {
         let n = self.peers.len();
-        let what = ctx::choose("op", 11);
+        // 0 = the call that most often has nothing to do (shrinks towards short histories).
+        let what = *ctx::pick("op", &[10usize, 0, 1, 2, 3, 4, 5, 6, 7, 8, 9]);
         let others: Vec<usize> = (0..n).filter(|i| *i != p).collect();
         let manager = self.peers[p].tp.manager.clone();
         self.peers[p].snap = None;
@@ -1225,12 +1223,11 @@ async fn scenario(mode: u32) {
         let sstore = TestSpacesStore::new(tp.store.clone());
         let forge = TestForge::new(tp.store.clone(), credentials.signing_key());
         let id = tp.manager.id();
-        peers.push(Peer { tp, sstore, forge, name: format!("P{i}"), id, have: BTreeSet::new(), first_ok: BTreeMap::new(), inbox: vec![], redelivered: BTreeSet::new(), snap: None, dead: false });
+        peers.push(Peer { tp, sstore, forge, id, have: BTreeSet::new(), first_ok: BTreeMap::new(), inbox: vec![], redelivered: BTreeSet::new(), snap: None, dead: false });
     }
     let byz = if mode == 2 { Some(n - 1) } else { None };
-    let mut w = World { peers, msgs: vec![], by_hash: BTreeMap::new(), spaces: vec![], groups: vec![], space_group: BTreeMap::new(), stopped: false };
+    let mut w = World { peers, msgs: vec![], by_hash: BTreeMap::new(), spaces: vec![], groups: vec![], space_group: BTreeMap::new() };
     ev!("{} peers{}", n, byz.map(|b| format!(", P{b} also forges messages")).unwrap_or_default());
-    let _ = &w.peers[0].name;
 
     // Everybody announces a key bundle; unless drawn otherwise these reach everyone first (the
     // crate's own tests register all members up front).
@@ -1256,18 +1253,15 @@ async fn scenario(mode: u32) {
 
     let steps = ctx::range("steps", 3, 26);
     for _ in 0..steps {
-        if w.stopped {
-            break;
-        }
         let alive: Vec<usize> = (0..n).filter(|p| !w.peers[*p].dead).collect();
         if alive.is_empty() {
             break;
         }
         // 0 = local operation, 1/2 = delivery, 3 = duplicate, 4 = forge
         let cats: &[usize] = match mode {
-            0 => &[0, 1, 2, 1],
-            1 => &[0, 1, 2, 3, 3, 1],
-            _ => &[0, 4, 1, 2, 3, 4, 1],
+            0 => &[1, 0, 2, 0],
+            1 => &[1, 0, 2, 3, 3, 0],
+            _ => &[1, 0, 4, 2, 3, 4, 0],
         };
         let cat = *ctx::pick("step", cats);
         match cat {
@@ -1323,7 +1317,9 @@ async fn scenario(mode: u32) {
     if mode >= 1 {
         let mut cands: Vec<(usize, usize)> = (0..n).filter(|p| !w.peers[*p].dead).flat_map(|p| w.peers[p].first_ok.keys().filter(|h| !w.peers[p].redelivered.contains(h)).map(|h| (p, *h)).collect::<Vec<_>>()).collect();
         ctx::shuffle("final.duplicates", &mut cands);
-        for (p, mi) in cands.into_iter().take(32) {
+        // Nearly always; a zeroed choice stream (shrinking) skips this tail.
+        let k = if ctx::chance("final.duplicates.on", 9, 10) { 32 } else { 0 };
+        for (p, mi) in cands.into_iter().take(k) {
             if !w.peers[p].dead {
                 w.redeliver(p, mi).await;
             }
